@@ -1268,6 +1268,10 @@ def check_C04(ctx):
         if cid in (1, 2, 3, 12, 4, 5) or (cid in (6, 7, 9) and p <= 8):
             vals = sorted(set(vals) | set(range(1 << (9 if ctx.tier == "quick" else 14))))
         vals = [v for v in vals if gen.writable(cid, p, v)]
+        if cid in (6, 12):
+            # the property claims the published zeta_k codeword where 2^((h+1)k) fits in 64 bits
+            k = p if cid == 6 else 3
+            vals = [v for v in vals if (((v + 1).bit_length() - 1) // k + 1) * k <= 63]
         for E in (0, 1):
             for i in range(0, len(vals), 60):
                 chunk = vals[i:i + 60]
